@@ -93,6 +93,44 @@ func TestVerifC16(t *testing.T) {
 			cases = append(cases, cdesc{f, "as-is"}, cdesc{f, "upper"}, cdesc{f, "lower"}, cdesc{f, variants[3+rr.Intn(3)]}, cdesc{f, "reflow-one-line"}, cdesc{f, variants[7+rr.Intn(4)]}, cdesc{f, variants[3+rr.Intn(8)]})
 		}
 	}
+	{
+		// driven on purpose in every tier: (1) files that pass the "has a common license
+		// word" gate through ONE word only - any presentation in which that word is no
+		// longer recognised makes NearestMatch decline; (2) short texts (one-line headers
+		// up to a few lines), where whatever a normaliser drops at the start or end of
+		// the text is most of the text.
+		words := []string{"code", "license", "original", "rights", "software", "terms", "version", "work"}
+		isWord := func(c byte) bool { return c == '_' || c >= '0' && c <= '9' || c >= 'a' && c <= 'z' }
+		for _, f := range names {
+			raw, _ := ReadLicenseFile(f)
+			low := strings.ToLower(string(raw))
+			n := 0
+			for _, w := range words {
+				for i := strings.Index(low, w); i >= 0; {
+					j := i + len(w)
+					if (i == 0 || !isWord(low[i-1])) && (j == len(low) || !isWord(low[j])) {
+						n++
+						break
+					}
+					k := strings.Index(low[j:], w)
+					if k < 0 {
+						break
+					}
+					i = j + k
+				}
+			}
+			if n == 1 {
+				for _, v := range []string{"as-is", "upper", "lower", "reflow-one-line", "decor-slashes", "decor-star"} {
+					cases = append(cases, cdesc{f, v})
+				}
+			}
+			if len(raw) <= 1500 {
+				for _, v := range []string{"upper", "decor-slashes", "decor-hash", "decor-star", "decor-dashes"} {
+					cases = append(cases, cdesc{f, v})
+				}
+			}
+		}
+	}
 	if e.quick() {
 		// the one-line re-flow for every file that begins with a notice line (the layout in
 		// which a whole-line rule can swallow the text), plus a sample of the others
